@@ -111,6 +111,18 @@ CLAIMED.update({
               "Refusals are compared by exception class."),
         technique="TLA+ transcription + TLC exhaustive; code->spec conformance of recorded results",
         design_ref="4/C15"),
+    "C16": dict(
+        engine="IndParams", category="model_checking",
+        text=("TLC enumerates every container (identifier sequences incl. numeric-looking ids, 1-2 parameters out of 3 names x "
+              "3 shapes) x 4 conversion paths (table, tensor, csv, json) of specs/IndParams.tla and checks Lossless on the "
+              "intended design and LosslessExceptNamed on the as-built one (two named deviations); every case is built as a "
+              "real IndividualParameters with seeded values, converted there and back, and TLC compares status, names, shapes, "
+              "identifiers and value equality with Expected (IndParamsTrace.tla), checks the addition rules (10 refusals, 1 "
+              "acceptance per case) and that the records cover the whole space."),
+        note=("Exhaustive over the stated finite case space; values are seeded samples. Two known findings (scalar shapes, "
+              "underscore in names) are modelled as named deviations so that any other deviation is still reported."),
+        technique="TLA+ case table + TLC exhaustive; spec-enumerated cases run on the code; code->spec conformance",
+        design_ref="4/C16"),
     "C19": dict(
         engine="Saem", category="model_checking",
         text=("TLC checks TempStart, TempFloor, TempMonotone, TempOnlyAtBoundaries, TempOneAfterAnnealing, NoAnnealingIsOne, "
@@ -126,6 +138,7 @@ CLAIMED.update({
 })
 
 ENGINES = {
+    "IndParams": dict(path="specs/IndParams.tla", kind="TLA+ case table of individual-parameter conversions (+ IndParamsTrace.tla)"),
     "ModelLifecycle": dict(path="specs/ModelLifecycle.tla", kind="TLA+ state machine of API call histories on a model object"),
     "Ingest": dict(path="specs/Ingest.tla", kind="TLA+ case table of table ingestion (+ IngestTrace.tla)"),
     "Sampler": dict(path="specs/Sampler.tla", kind="TLA+ state machine of one Metropolis-within-Gibbs sampler (+ SamplerCore.tla, SamplerTrace.tla)"),
